@@ -38,20 +38,25 @@ SOURCES = {
 SOURCES["v5"] = {p: t.replace("\n", "\r\n") for p, t in SOURCES["v1"].items()}
 
 
+# v6 = v1 plus an item typeshare must reject, in the crate whose file is written second (MC_Writer!MCFails)
+SOURCES["v6"] = dict(SOURCES["v1"], **{"cb/src/lib.rs": SOURCES["v1"]["cb/src/lib.rs"] + "#[typeshare]\npub struct Big { pub n: u64 }\n"})
+FAILS = {"v6"}
+
+
 def set_sources(root, v):
     if os.path.isdir(root):
         shutil.rmtree(root)
     cli.make_tree(root, SOURCES[v])
 
 
-def run_into(out, src, lang, mode):
+def run_into(out, src, lang, mode, expect_fail=False):
     args = ["-l", lang] + LANG_ARGS[lang]
     args += ["-o", os.path.join(out, "out." + common.EXT[lang])] if mode == "single" else ["-d", out]
     args.append(src)
     os.makedirs(out, exist_ok=True)
     r = cli.run_cli(args, timeout=20)
-    if r["exit"] != "ok":
-        raise ToolError(f"typeshare failed ({lang}, {mode}): {r['stderr'][-300:]}")
+    if r["exit"] != ("error" if expect_fail else "ok"):
+        raise ToolError(f"typeshare {'did not fail' if expect_fail else 'failed'} ({lang}, {mode}): exit {r['exit']} {r['stderr'][-300:]}")
     return {p: {"sha": s, "mtime": str(m)} for p, (s, m) in cli.snapshot(out).items()}
 
 
@@ -66,7 +71,7 @@ def run(chk):
                 "; impl->spec: snapshot (sha256, mtime_ns) after every run, judged by Trace_Writer. distinct = (language, mode, history prefix).")
     chk.assumptions = ["mtime equality is compared in ns; runs are >= 3 ms apart", "fresh content = what the same binary writes into an empty location"]
     # model level: P holds for the model of today's code; the pre-fix helper behaviour violates Idempotent
-    for cfg, must_hold in (("fixed", True), ("bug", False)):
+    for cfg, must_hold in (("fixed", True), ("bug", False), ("eager", False)):
         res = common.run_tlc("MC_Writer", cfg=f"MC_Writer_{cfg}", workers=2, timeout=300, allow_violation=True)
         chk.add_tlc(f"MC_Writer[{cfg}]", res)
         chk.extra.setdefault("model_results", {})[cfg] = res.violation or "Idempotent and Fresh hold for every history"
@@ -92,7 +97,14 @@ def run(chk):
         src = os.path.join(base, "src")
         for v in SOURCES:
             set_sources(src, v)
-            ref = run_into(os.path.join(base, f"ref_{v}"), src, lang, mode)
+            ref = run_into(os.path.join(base, f"ref_{v}"), src, lang, mode, v in FAILS)
+            if v in FAILS:
+                if ref:
+                    events.append({"ev": "reset"})
+                    meta.append(None)
+                    events.append({"ev": "run", "v": v, "failed": True, "files": ref})      # into an empty location: nothing may appear
+                    meta.append({"lang": lang, "mode": mode, "history": [v]})
+                continue
             events.append({"ev": "ref", "v": v, "files": {p: f["sha"] for p, f in ref.items()}})
             meta.append(None)
         hl = maximal if thorough or True else maximal
@@ -103,8 +115,8 @@ def run(chk):
             for k, v in enumerate(h):
                 set_sources(src, v)
                 time.sleep(0.003)
-                snap = run_into(out, src, lang, mode)
-                events.append({"ev": "run", "v": v, "files": snap})
+                snap = run_into(out, src, lang, mode, v in FAILS)
+                events.append({"ev": "run", "v": v, "failed": v in FAILS, "files": snap})
                 meta.append({"lang": lang, "mode": mode, "history": list(h[:k + 1])})
             shutil.rmtree(out, ignore_errors=True)
         return lang, mode, events, meta
@@ -126,7 +138,12 @@ def run(chk):
             e, m = events[b - 1], meta[b - 1]
             prev = events[b - 2] if events[b - 2]["ev"] == "run" else None
             kinds = []
-            if prev and prev["v"] == e["v"]:
+            if e.get("failed"):
+                before = prev["files"] if prev else {}
+                for p in set(before) | set(e["files"]):
+                    if before.get(p) != e["files"].get(p):
+                        kinds.append(("touched-by-failing-run", path_class(p)))
+            elif prev and prev["v"] == e["v"]:
                 for p in set(prev["files"]) | set(e["files"]):
                     a, c = prev["files"].get(p), e["files"].get(p)
                     if a != c:
